@@ -39,7 +39,10 @@ CHECKS = {
              "(followed through parameters to all internal call sites): output, filter subject, tag in vertex filter, tag in "
              "fold post-filter, imported tag; unclassifiable sites fail. For each class that occurs, the data flow into the "
              "iterator returned by VertexInfo::required_properties must include the IR source of that class, restricted to the "
-             "asked vertex. Decides that no class of request is invisible to the hint, not set equality per query.",
+             "asked vertex; required_properties is also abstractly evaluated on sample IR holding one request of every class at "
+             "every position (own vertex, later vertex, fold count filter, imported into a fold): each must be listed for the "
+             "vertex that owns it and for no other. Decides that no class / position of request is invisible to the hint, not "
+             "set equality for every query.",
         note="trusted: rustc resolution; provenance closure is intra-crate with call-site substitution (depth 5)",
         technique="static analysis: inter-procedural provenance of call arguments + result data-flow footprint",
         design_ref="DESIGN.md section 4 C05"),
@@ -49,7 +52,9 @@ CHECKS = {
              "on a well-formed two-component query and on one malformed variant per structural invariant (18 variants), each "
              "rejected with its own code; id generators advance in lockstep (+1 from 1, root vid unpaired); complete decision "
              "table of TagHandler::reference_tag (48 path/order cases incl. import level); begin/end_subcomponent pairing; "
-             "variable collection sources. Not decided: invariants beyond what indexer + lockstep imply.",
+             "variable collection sources; the tag table is evaluated with and without the tag already used elsewhere (history "
+             "independence); the two component stacks (ComponentPath, tag handler) are advanced and unwound in lockstep with no early "
+             "exit between. Not decided: invariants beyond what indexer + lockstep imply.",
         note="trusted: collection model (stdmodel.py), Type model; the indexer's checks are the definition of well-formed",
         technique="static analysis: abstract interpretation of indexer / tag handler over IR shapes + structural pairing rules",
         design_ref="DESIGN.md section 4 C11"),
@@ -103,7 +108,9 @@ CHECKS = {
              "on every combination of per-variable status (missing/valid/invalid) for up to two variables plus an optional "
              "unused argument: Ok exactly when nothing is missing, unused or ill-typed, otherwise exactly the offending names in "
              "the right error kinds; complete table of Type::is_valid_value (depth <= 2, four scalar bases, nested lists) and of "
-             "the per-operator variable-type inference against their definitions. Uniformity in the number of variables is assumed.",
+             "the per-operator variable-type inference against their definitions; a variable's type is the greatest common subtype "
+             "of its uses (C17's intersect table and C11's collection rule re-evaluated as guards). Uniformity in the number of "
+             "variables is assumed.",
         note="trusted: the std collection model in tfv/stdmodel.py, the algebraic Type model (tymodel.py)",
         technique="static analysis: abstract interpretation of the typed HIR over status / type classes (decision tables)",
         design_ref="DESIGN.md section 4 C12"),
@@ -112,7 +119,8 @@ CHECKS = {
         text="Narrow structural clauses: the serialized mirror of DataContext has the same fields/types and both conversions "
              "move every field; per resolver the set of trace operations the recording adapter writes equals the set the "
              "replaying reader accepts (the readers end in `_ => unreachable!()`, so rustc does not check this); the recording "
-             "closures return the inner adapter's items unchanged. Not decided: equality of rows.",
+             "closures return the inner adapter's items unchanged; every replay reader buffers pending input contexts first-in-"
+             "first-out (needed when the recorded adapter had several contexts in flight). Not decided: equality of rows.",
         note="trusted: Iterator::inspect/map semantics; serde round-trip of the trace (C16)",
         technique="static analysis: ADT mirror comparison + writer/reader variant-set agreement over typed HIR",
         design_ref="DESIGN.md section 4 C15"),
@@ -121,8 +129,9 @@ CHECKS = {
         text="Narrow structural clauses read from the expanded serde derives in the typed HIR: every field omitted under "
              "predicate P is read back through a default D with P(D) true (47 fields); Type serializes via Display and "
              "deserializes via Type::parse; TransparentValue is untagged and tries Null, Int64, Uint64, Float64 in that order; "
-             "FieldValue <-> TransparentValue are identities on variants and payloads. Not decided: Display/parse inverse on "
-             "the bitmask, serde/serde_json/ron themselves.",
+             "FieldValue <-> TransparentValue are identities on variants and payloads; Display(Type) is the GraphQL text and "
+             "Type::parse(Display(t)) == t for every list depth 0..30 (both interpreted on the real bit-mask representation, "
+             "async-graphql-parser's Type::new modelled from its source). Not decided: serde/serde_json/ron themselves.",
         note="trusted: serde's derive semantics as seen in its expansion; std Default impls",
         technique="static analysis: facts extracted from expanded derive code in typed HIR + variant tables",
         design_ref="DESIGN.md section 4 C16"),
@@ -132,7 +141,8 @@ CHECKS = {
              "types of list depth <= 2 (base case and inductive step of the structural recursion) by abstract evaluation of "
              "their typed AST over the algebraic model of types; lattice laws checked on the tables (meet: commutative, "
              "idempotent, lower bound, greatest, None iff shapes differ; partial order; upward-closed validity; equivalence). "
-             "Primitive bit-mask accessors are the model boundary (constants and shift agreement checked).",
+             "The operations are interpreted on the real representation (base name + modifier bit mask, the accessors' own "
+             "mask arithmetic included) and also on deep types (list depth 3, 10, 29, 30).",
         note="trusted: the primitive accessors implement the algebraic view; recursion uniform in depth",
         technique="static analysis: abstract interpretation over an algebraic type model + law checking on finite tables",
         design_ref="DESIGN.md section 4 C17"),
@@ -172,7 +182,8 @@ CHECKS = {
         text="Complete table of <FieldValue as PartialEq>::eq and PartialOrd::partial_cmp over boundary representatives "
              "of every scalar class, by abstract evaluation of the typed AST; the algebraic laws (totality, eq iff Equal, "
              "reflexive/symmetric/transitive, antisymmetry, transitivity, numeric agreement on mixed integers) are "
-             "checked on the table; discriminant table equals declaration order. Lists are not enumerated.",
+             "checked on the table; discriminant table equals declaration order; lists (mixed Int64/Uint64 elements, nulls, "
+             "nested) compare like the tuples of their numeric values.",
         note="trusted: std integer comparison / TryFrom; floats finite; slice comparison is lexicographic over the element order",
         technique="static analysis: abstract interpretation of the typed HIR over value classes + law checking on the finite table",
         design_ref="DESIGN.md section 4 C08"),
@@ -184,7 +195,9 @@ CHECKS = {
              "listed known finding; an unaudited or additional site is a violation. The guards the audit leans on are checked "
              "structurally: arguments validated before the first adapter call (G-ARGS), carrier bracket discipline (C02 r1/r3), "
              "operand types validated by the frontend (G-OPTYPES). Decides that the reachable set equals the audited set and that "
-             "guards are in place, not that every audited reason is true for all inputs.",
+             "guards are in place, not that every audited reason is true for all inputs. The comparison functions' own panic sites "
+             "are discharged semantically: evaluated on every operand pair the frontend admits (null on either side included) they "
+             "never reach a panic.",
         note="trusted: the hand-made audit reasons; the curated list of panicking std APIs; the adapter honours its contract; "
              "seven genuine defects are listed in known_findings.json",
         technique="static analysis: call-graph reachability + panic-site inventory against an audit table + structural guard rules",
@@ -203,8 +216,9 @@ CHECKS = {
         category="other",
         text="Panic-site inventory with entries Schema::parse / Schema::new (reachable set = audited set + listed known findings); "
              "Schema::new calls all seven validation passes, merges their errors and returns Ok exactly when none was reported; "
-             "every InvalidSchemaError variant is still constructed (no rule silently dropped). Not decided: that the implemented "
-             "rules are exactly the documented ones.",
+             "every InvalidSchemaError variant is still constructed (no rule silently dropped); validation loops examine every "
+             "element (early exits inside them are `return Err` or audited). Not decided: that the implemented rules are exactly "
+             "the documented ones.",
         note="trusted: audit reasons; async-graphql-parser rejects empty documents; seven genuine panics are listed in known_findings.json",
         technique="static analysis: call-graph reachability + panic-site inventory + must-call / merge path rule",
         design_ref="DESIGN.md section 4 C19"),
@@ -215,7 +229,8 @@ CHECKS = {
              "accessor of the same name on its own vertex kind; every arm is built by the contract helpers "
              "resolve_property_with / resolve_neighbors_with and no coercion is reachable; the semantic accessors read what "
              "they name (to_many = list, at_least_one = non-null, is_interface = interface kind), properties/edges partition "
-             "fields by vertex-typedness, entry points are the root query type's fields and the root type is not a vertex type.",
+             "fields by vertex-typedness, entry points are the root query type's fields and the root type is not a vertex type; "
+             "decision table of the computed EdgeParameter.default (declared default, else null if nullable, else none).",
         note="trusted: async-graphql-parser's TypeDefinition/FieldDefinition meaning; exactness for a concrete schema is not decided beyond these clauses",
         technique="static analysis: string-dispatch table extraction vs the schema file + accessor footprint rules over typed HIR",
         design_ref="DESIGN.md section 4 C20"),
@@ -236,7 +251,9 @@ CHECKS = {
              "inside, nested fold outputs, count output, count tags used by parent filters and sibling folds); the max/min limit "
              "functions and collect_fold_elements are abstractly evaluated for every set of one or two count filters over small "
              "values and every true fold size: early-terminated outcome equals the full-materialisation outcome; every post-filter "
-             "is applied after materialisation; the maximum path discards only after pulling exactly one element beyond the limit.",
+             "is applied after materialisation; the maximum path discards only after pulling exactly one element beyond the limit; "
+             "the truncation decision itself is evaluated on sample IR with one observer present at a time (no truncation whenever "
+             "anything observes the fold; controls show the table is not vacuous).",
         note="trusted: count filters compare integers (frontend type check); collection/iterator model (stdmodel.py); uniformity beyond the small values enumerated",
         technique="static analysis: data-flow dependence of the truncation decision + abstract interpretation of the limit functions",
         design_ref="DESIGN.md section 4 C22"),
@@ -245,7 +262,9 @@ CHECKS = {
         text="Narrow: check_adapter_invariants runs the three sibling checkers; each (located as the function calling the resolver "
              "under test) holds the same three obligations: an outcome assertion on every yielded item inside the loop, an equality "
              "assertion on the number of contexts, and an equality assertion on the order tags of given vs received contexts; probe "
-             "contexts have no active vertex and a distinct order tag from the loop variable. Not decided: completeness over all schemas.",
+             "contexts have no active vertex and a distinct order tag from the loop variable; the items the checkers skip are "
+             "inventoried (one known finding: edges with a parameter that has no default) and a null default counts as a default. "
+             "Not decided: that each assertion is strong enough for every adapter.",
         note="trusted: assert macros' expansion as seen in HIR; edges with required parameters are skipped by the checker itself",
         technique="static analysis: sibling-agreement of assertion obligations over typed HIR",
         design_ref="DESIGN.md section 4 C25"),
